@@ -2,6 +2,8 @@
 from .. import matrix
 from ..rules import callgraph, shape, shape2, encoding, sets
 
+from ..rules import round5
+
 
 def run(tier, runner):
     allp = matrix.vec_points(tier)
@@ -28,9 +30,11 @@ def run(tier, runner):
     r_cs.require(14, 'SmallVector mutators')
     r_gg.require(4, 'grow call sites')
     r_span.require(6, 'inline layouts')
+    r_ns = round5.need_size(progs_all + real)
+    r_ns.require(4, 'capacity requests of the vector members')
     return {
-        'results': [r1, r_cs, r_gg, r_span, r_w, r_r, r_es, r_si, r_ssg, r_sss],
-        'explanation': 'NOALLOC: on the complete resolved call graph of every FixedCapacityVector instantiation (all public members, '
+        'results': [r1, r_cs, r_gg, r_span, r_w, r_r, r_es, r_si, r_ssg, r_sss, r_ns],
+        'explanation': 'NEED-SIZE: capacity requests derive from element counts, never from the capacity() of another container (copying from a vector that once was large does not make an inline destination allocate).  NOALLOC: on the complete resolved call graph of every FixedCapacityVector instantiation (all public members, '
                        'all archetypes, both growing policies; bodies of std algorithms included) no allocation request (malloc/realloc/'
                        'operator new/get_temporary_buffer/any allocator allocate) is reachable.  SmallVector, structural half: CAP-STABLE (an allocator request is reachable from the '
                        'mutators only through grow), GROW-GUARD (grow only when capacity() is insufficient), INLINE-SPAN (the elements live inside the '
